@@ -4,6 +4,15 @@ Writes seeded/TABLE.md and refreshes the copy between the seeded-table markers o
 import json, os, glob, re
 V = os.path.dirname(os.path.dirname(os.path.abspath(__file__)))
 STRENGTH = {
+    'C03_m9': 'first run: fail-closed translator only; overload oracle with operands that end in a conj=True scalar Multiply ((c*A).H, A*Multiply(.., c, conj=True)) and the expressions A*(a*B), (A*a)*a',
+    'C19_m9': 'first run: fail-closed translator only; the same argument OBJECTS handed to each simulator twice (identical rotations, arguments untouched)',
+    'C02_m9': 'first run: static alias scan only (no concrete input); purity cases at parameter values where an internal resize is the identity (nufft / nufft_adjoint with oversamp=1, fft / ifft with oshape = shape)',
+    'C12_m11': 'first run: fail-closed translator only; two live ConjugateGradient objects of the same shape and dtype stepped alternately, the first compared with its solo run',
+    'C15_m9': 'first run: fail-closed translator only; PDHG with array-valued dual steps, one of them exactly 0 (NaN residual: the solver must run on), quick tier now draws 6 variants',
+    'C13_m11': 'first run: fail-closed translator only; caller iterate stored in single precision with double-precision data, gap bounds after k updates evaluated on the caller array',
+    'C14_m11': 'first run: fail-closed translator only; PDHG with G and ONE of tau / sigma supplied (the other defaulted from the stacked operator), G of norm 2-4',
+    'C16_m11': 'C16 reports it through the dependency tie on linop.py only (TV recon with non-contiguous maps not generated); C03 exhibits the input (Vstack of non-contiguous block outputs)',
+    'C01_m9': 'reported through the interpw translator tie; it exposed the genuine defect F25 (width / param truncated for integer-typed coord), repaired in 13e2703 -- the patch applies to 9d35b3e only; integer-typed coordinates are now generated in C07 and in the C01-C04 leaf generator',
     'C17_m7': 'first run: fail-closed translator only; nearly dead first (phase-reference) channel: coil 0 scaled to the precision of the k-space dtype (generator share 15 % + two corpus entries)',
     'C20_m7': 'reported by the existing oracle; since round 7 also by the float correspondence of model/Spokes.v (spoke sets designed twice)',
     'C01_m2': 'per-axis tuple widths / params added to the Interpolate/Gridding leaf generator',
